@@ -198,6 +198,8 @@ def prepare(need_driver=True):
         if need_driver:
             ok, lg = build_driver()
             status["driver"] = ok
+            global DRIVER_OK
+            DRIVER_OK = ok
             if not ok:
                 status["log"] += "DRIVER BUILD FAILED\n" + lg[-3000:]
     status["prepare_s"] = round(time.time() - t0, 2)
@@ -258,7 +260,17 @@ def forbidden_scan():
     return bad
 
 
+class DriverMissing(Exception):
+    """the extracted driver could not be built from the current tree (a proof or the extraction broke): model-side runs are skipped, the
+    implementation-level search for a failing input still runs"""
+
+
+DRIVER_OK = True
+
+
 def run_lines(binary, args, input_text=None, timeout=3000):
+    if binary == DRIVER and not DRIVER_OK:
+        raise DriverMissing()
     p = sh([binary] + list(args), input=input_text.encode() if isinstance(input_text, str) else input_text, timeout=timeout)
     if p.returncode != 0:
         raise RuntimeError("%s %s failed (%d): %s" % (binary, args, p.returncode, p.stderr.decode(errors="replace")[-2000:]))
@@ -408,6 +420,8 @@ from concurrent.futures import ThreadPoolExecutor
 
 
 def _run_out(cmd, inp=None):
+    if cmd and cmd[0] == DRIVER and not DRIVER_OK:
+        raise DriverMissing()
     p = sh(cmd, input=inp, timeout=7200)
     if p.returncode != 0:
         raise RuntimeError("%s failed: %s" % (cmd, p.stderr.decode(errors="replace")[-2000:]))
